@@ -71,6 +71,11 @@ def gen_getscope_lock(repo):
     names = []
     for rel, cls, fn, use_re, loop_re, app_re in SITES:
         f = site_facts(body_of(repo, rel, cls, fn), use_re, loop_re, app_re)
+        if f[0] and f[1] and not f[2]:
+            # the guard is where it was and held to the return, but the look-up is not spelled as a loop with a return inside
+            # any more (std::find_if, a helper): a change of shape - that the same key yields the same object under every
+            # interleaving is what the get-or-create schedules under the scheduler observe; the committed fact is kept
+            raise X.ShapeChanged(f'{rel}: {cls}::{fn}: look-up / append under the guard no longer has the loop-with-return shape')
         before, held, shape = before and f[0], held and f[1], shape and f[2]
         names.append(f'{cls}::{fn}')
     # the meter list lives in MeterContext: GetMeters is a view of meters_, AddMeter appends to it
